@@ -178,7 +178,12 @@ def check(case, rec=None):
         cImageD11.cimaged11_omp_set_num_threads(case["threads"][-1])
         # max_grains limits how many orientations one search pass may add, not how many compete for the peaks
         mg = [100, 100, max(1, ng // 2), 1, ng][case["seed"] % 5]
-        ix = indexing.indexer(gv=gv, hkl_tol=tol, max_grains=mg)
+        if case["seed"] % 2:
+            ix = indexing.indexer(gv=gv, hkl_tol=tol, max_grains=mg)
+        else:
+            # the tolerance assigned to the attribute after construction, as indexing.index and do_index do
+            ix = indexing.indexer(gv=gv, hkl_tol=0.3 if tol < 0.1 else 0.01, max_grains=mg)
+            ix.hkl_tol = tol
         ix.ubis = [u.copy() for u in ubis]
         ok, e = guard(ix.fight_over_peaks)
         if not ok:
